@@ -81,7 +81,7 @@ def hashInput (key : Ty → Nat) (a : RVal) : List Nat :=
 
 /-- FNV-1a, 64 bit: the deterministic hasher the harness uses -/
 def fnv1a (bytes : List Nat) : Nat :=
-  bytes.foldl (fun h b => ((h ^^^ b) * 0x100000001b3) % 2 ^ 64) 0xcbf29ce484222325
+  (bytes.foldl (fun (h : UInt64) b => (h ^^^ b.toUInt64) * 0x100000001b3) 0xcbf29ce484222325).toNat
 
 def hashV (key : Ty → Nat) (a : RVal) : Nat := fnv1a (hashInput key a)
 
